@@ -23,12 +23,12 @@ numeric = Union[int, float]
 
 TACTICS_ORDER = [1, 2, 3, 4, 5]  # noqa: WPS407
 
-# relative tolerance granted to LP optima when deciding containment: above the round-off of a vertex solution, and well
-# below anything a caller could mean by "contained" (a containment accepted although it fails by 1e-6 made the quotient
-# conjoin guarantees of a component whose assumptions did not hold)
-CONTAINMENT_TOLERANCE = 1e-9
-# ... and never more than this in absolute terms, whatever the size of the bound
-CONTAINMENT_TOLERANCE_CAP = 5e-8
+# tolerance granted to LP optima when deciding containment.  It has to absorb the round-off of an LP vertex solution, which
+# grows with the size of the products coefficient * coordinate and not with the bound (a row with coefficients around 1000
+# over |x| <= 1000 comes back 3e-9 above its own bound of 0), and it has to stay well below anything a caller could mean by
+# "contained" (a containment accepted although it fails by 4e-7 made the quotient conjoin guarantees of a component whose
+# assumptions did not hold): an absolute 5e-8.
+CONTAINMENT_TOLERANCE = 5e-8
 
 # the decisions taken from LP answers (redundant or not, bounded or not) are only as good as the solver's tolerances: with the
 # defaults (1e-7) HiGHS calls `min -0.001 y  s.t.  -20000 y <= -20000` optimal and misses a constraint that differs from a
@@ -1178,7 +1178,7 @@ class PolyhedralTermList(TermList):  # noqa: WPS338
             else:
                 # the LP optimum carries the solver's round-off: compare with a tolerance, which has to stay
                 # below the relaxation of 1 applied to the constraint in the LP above
-                if -res["fun"] <= b_temp + min(CONTAINMENT_TOLERANCE * (1 + abs(b_temp)), CONTAINMENT_TOLERANCE_CAP):  # noqa: WPS309
+                if -res["fun"] <= b_temp + CONTAINMENT_TOLERANCE:  # noqa: WPS309
                     logging.debug("Redundant constraint")
                 else:
                     is_refinement = False
